@@ -286,6 +286,19 @@ def _write_evidence(prop, tier, seed, mod, m, reports, wall, nviol, status, inco
         "cpu_s": round(m["cpu_s"], 1),
         "repo_git": _git_state(),
     }
+    for r in reports:
+        if r.get("status") == "ok" and r.get("line_coverage"):
+            lc = r["line_coverage"]
+            anchors = getattr(mod, "ANCHOR_FILES", None)
+            tot_x = sum(v["executable"] for v in lc.values())
+            tot_h = sum(v["executed"] for v in lc.values())
+            cov["line_coverage_shard0"] = {
+                "note": "function-body lines of the library executed by shard 0 of this run (sys.monitoring LINE events)",
+                "executed": tot_h, "executable": tot_x,
+                "files": {k: {"executed": v["executed"], "executable": v["executable"], "unreached": v["unreached"]}
+                          for k, v in sorted(lc.items()) if v["executed"] < v["executable"] or (anchors and k in anchors)},
+            }
+            break
     if hasattr(mod, "extra_coverage"):
         try:
             cov.update(mod.extra_coverage(m))
